@@ -14,7 +14,7 @@ one() {
     if ! (cd $D && go build ./... >/dev/null 2>&1); then echo "$diff: BUILD FAILED"; fi
     nf=$(cd $D && go test -vet=off -count=1 ./... 2>&1 | grep -c '^FAIL\|^--- FAIL'); [ "$nf" != "0" ] && echo "$diff: SUITE FAILS ($nf lines)"
   fi
-  out=$(/verif/bin/zogcheck -prop all -repo $D -verif $RCV 2>&1 | grep -E "^(VIOLATED|UNDECIDED|BROKEN|panic|fatal)" | cut -c1-300 | sed "s#$D/##g" | head -${RC_LINES:-8})
+  out=$(/verif/bin/zogcheck -prop all -repo $D -verif $RCV 2>&1 | grep -E "^(VIOLATED|UNDECIDED|BROKEN|panic|fatal)" | cut -c1-${RC_COLS:-300} | sed "s#$D/##g" | head -${RC_LINES:-8})
   if [ -z "$out" ]; then echo "$(echo $diff | sed 's#/verif/robust/##'): silent"; else echo "$(echo $diff | sed 's#/verif/robust/##'): ALARM"; echo "$out" | sed 's/^/    /'; fi
   git -C /repo worktree remove --force $D
 }
